@@ -12,6 +12,8 @@ CONSTANTS
  Gates = {FALSE}
  DL1 <- DL2
  DL2s <- DLN
+ W2 <- WT
+ LB2 <- LA
  W3 <- WT
  Res <- R2
 PROPERTIES CallsEnd ShutdownReturns AllEndAfterShutdown
